@@ -64,11 +64,36 @@ theorem C03_history_from_partial (w : World) (ops : List Op) (hw : w.coherent = 
     (Impl.run w ops).2.coherent = true :=
   run_refines w ops hw henv
 
-/-- **Set at connect**: a new connection's context is what `connect(database, schema)` named, existing
-    connections keep theirs, and all stay coherent. -/
-theorem C03_connect (w : World) (d s : Option Name) (h : s.isSome → d.isSome) (hw : w.coherent = true) :
-    (Impl.connect w d s).abs = Spec.connect w.abs d s ∧ (Impl.connect w d s).coherent = true :=
-  ⟨connect_refines w d s h, connect_coherent w d s h hw⟩
+/-- **Set at connect** (any `create_database_on_connect` / `create_schema_on_connect`): the new connection's context
+    is the named database / schema as far as they exist after the connect, existing connections keep theirs — with
+    no envelope.  Partial part: all connections stay coherent unless the connect names something that is missing and
+    not created (`connectRegion`: the connection then *reports* a database / schema it does not have). -/
+theorem C03_connect (w : World) (d s : Option Name) (cd cs : Bool) :
+    (Impl.connect w d s cd cs).abs = Spec.connect w.abs d s cd cs ∧
+    (w.coherent = true → connectRegion w d s cd cs = none → (Impl.connect w d s cd cs).coherent = true) :=
+  ⟨connect_refines w d s cd cs, fun hw henv => connect_coherent w d s cd cs henv hw⟩
+
+/-- with the default create flags only a schema without a database is outside the envelope -/
+theorem C03_connect_default (w : World) (d s : Option Name) (h : s.isSome → d.isSome) :
+    connectRegion w d s true true = none := by
+  cases d with
+  | none =>
+    cases s with
+    | none => simp [connectRegion, Impl.newSession, Session.coherent]
+    | some s => simp at h
+  | some d =>
+    have hd : (w.cat.connDb d true).hasDb d = true := by
+      simp only [Cat.connDb, if_true, Cat.ensureDb]; split
+      · assumption
+      · simp [Cat.hasDb]
+    cases s with
+    | none => simp [connectRegion, Impl.newSession, Session.coherent, hd]
+    | some s =>
+      have hs : ((w.cat.connDb d true).connSchema d s true).hasSchema d s = true := by
+        simp only [Cat.connSchema, hd, Bool.and_self, if_true, Cat.ensureSchema]; split
+        · assumption
+        · simp [Cat.hasSchema, Cat.hasDb] at hd ⊢; exact hd
+      simp [connectRegion, Impl.newSession, Session.coherent, hs]
 
 /-- **Resolution, partial**: on a coherent connection whose context is database `d`, schema `s`, a statement on
     the unqualified name `n` or the schema-qualified name `s'.n` does exactly what the same statement on the fully
@@ -115,8 +140,8 @@ theorem C03_need_ctx (w : World) (i : Nat) (st : Stmt) (ss : Session) (hi : w.se
 theorem C03_needs_levels (op : TOp) (d s n : Name) :
     (Stmt.tab op (.q1 n)).needs = (true, true) ∧ (Stmt.tab op (.q2 s n)).needs = (true, false) ∧
     (Stmt.tab op (.q3 d s n)).needs = (false, false) ∧
-    (Stmt.sch .create (.q1 s)).needs = (true, false) ∧ (Stmt.sch .drop (.q1 s)).needs = (true, false) ∧
-    (Stmt.sch .create (.q2 d s)).needs = (false, false) ∧ (Stmt.sch .drop (.q2 d s)).needs = (false, false) := by
+    (∀ i, (Stmt.sch (.create i) (.q1 s)).needs = (true, false) ∧ (Stmt.sch (.drop i) (.q1 s)).needs = (true, false) ∧
+      (Stmt.sch (.create i) (.q2 d s)).needs = (false, false) ∧ (Stmt.sch (.drop i) (.q2 d s)).needs = (false, false)) := by
   simp [Stmt.needs, TRef.needDb, TRef.needSchema, SRef.needDb]
 
 /-- **Own context** (no envelope): a statement on connection `i` never changes what any other connection reports
@@ -168,7 +193,7 @@ theorem finding_use_database_stale_schema :
 
 /-- …after which an unqualified CREATE TABLE lands in `12.main` although the connection reports schema `21` -/
 theorem finding_use_database_then_create_lands_in_main :
-    ((Impl.run w1 [.stmt 0 (.useDb 12), .stmt 0 (.tab (.create .table 0) (.q1 32))]).2.cat.find 12 mainS 32).isSome = true ∧
+    ((Impl.run w1 [.stmt 0 (.useDb 12), .stmt 0 (.tab (.create .table 0 false) (.q1 32))]).2.cat.find 12 mainS 32).isSome = true ∧
     ((Impl.run w1 [.stmt 0 (.useDb 12)]).2.sessions.map Session.abs) = [⟨some 12, some 21⟩] := by decide
 
 theorem finding_drop_database_unsupported :
@@ -181,10 +206,10 @@ theorem finding_use_without_kind :
 
 /-- connection 1 drops the schema that is current for connection 0: connection 0 keeps reporting it -/
 theorem finding_schema_dropped_by_other_connection :
-    w2.coherent = true ∧ region w2 1 (.sch .drop (.q1 21)) = some .schemaDroppedByOtherConnection ∧
-    ((Impl.step w2 1 (.sch .drop (.q1 21))).2.sessions.map Session.abs)[0]? = some ⟨some 11, some 21⟩ ∧
-    (Spec.step w2.abs 1 (.sch .drop (.q1 21))).2.ctxs[0]? = some ⟨some 11, none⟩ ∧
-    (Impl.step w2 1 (.sch .drop (.q1 21))).2.coherent = false := by decide
+    w2.coherent = true ∧ region w2 1 (.sch (.drop false) (.q1 21)) = some .schemaDroppedByOtherConnection ∧
+    ((Impl.step w2 1 (.sch (.drop false) (.q1 21))).2.sessions.map Session.abs)[0]? = some ⟨some 11, some 21⟩ ∧
+    (Spec.step w2.abs 1 (.sch (.drop false) (.q1 21))).2.ctxs[0]? = some ⟨some 11, none⟩ ∧
+    (Impl.step w2 1 (.sch (.drop false) (.q1 21))).2.coherent = false := by decide
 
 /-- second table unqualified on a connection without a database: DuckDB answers (2003) instead of 90105 -/
 theorem finding_non_first_table_unqualified :
@@ -212,6 +237,30 @@ theorem finding_use_schema_without_database :
     (Impl.step w2 2 (.sch .use (.q1 21))).1 = .err .binder ∧
     (Spec.step w2.abs 2 (.sch .use (.q1 21))).1 = .err .noDb := by decide
 
+/-- a connect naming a database that is missing and not created: the connection reports it (`conn.database = 11`)
+    although it has no current database (every unqualified name fails with 90105) -/
+theorem finding_connect_names_missing_context :
+    connectRegion World.init (some 11) none false false = some .connectNamesMissingContext ∧
+    (Impl.connect World.init (some 11) none false false).sessions.map (·.database) = [some 11] ∧
+    (Impl.connect World.init (some 11) none false false).abs.ctxs = [⟨none, none⟩] ∧
+    (Impl.step (Impl.connect World.init (some 11) none false false) 0 (.tab .select (.q1 31))).1 = .err .noDb := by decide
+
+/-- once another connection has created that database, the connection's own qualified USE SCHEMA gives it the full
+    context (database_set included): unqualified names resolve again -/
+theorem C03_named_database_created_later :
+    let w := (Impl.run (Impl.connect (Impl.connect World.init (some 11) (some 21) false false) none none false false)
+      [.stmt 1 (.createDb 11 false), .stmt 1 (.sch (.create false) (.q2 11 21)), .stmt 0 (.sch .use (.q2 11 21)),
+       .stmt 0 (.tab (.create .table 0 true) (.q1 31))])
+    w.1 = [.ok, .ok, .ok, .ok] ∧ w.2.coherent = true ∧ (w.2.cat.find 11 21 31).isSome = true := by decide
+
+/-- DROP SCHEMA IF EXISTS on the connection's own current schema behaves like DROP SCHEMA: no current schema
+    afterwards (90106), whether the schema is written bare or qualified; on a missing schema it changes nothing -/
+theorem C03_drop_if_exists :
+    (Impl.run w1 [.stmt 0 (.sch (.drop true) (.q1 21)), .stmt 0 (.tab (.create .table 0 true) (.q1 32))]).1 = [.ok, .err .noSchema] ∧
+    (Impl.run w1 [.stmt 0 (.sch (.drop true) (.q2 11 21)), .stmt 0 (.tab .select (.q1 31))]).1 = [.ok, .err .noSchema] ∧
+    Impl.step w1 0 (.sch (.drop true) (.q1 29)) = (.ok, w1) ∧ (Impl.step w1 0 (.sch (.drop false) (.q1 29))).1 = .err .catalog := by
+  decide
+
 /-! ## Regression witnesses for the repaired defects (the code before the `fix:` commits) -/
 
 /-- before the repair `USE SCHEMA d.s` recorded only the schema name -/
@@ -228,11 +277,11 @@ def oldDropReset (ss : Session) (s : Name) : Session := if ss.schema = some s th
 /-- C03/drop-schema-other-db and C03/dropped-current-schema-2003: dropping `12.21` cleared the schema of a
     connection in `11.21`; dropping the own schema left `schema_set` (and the search path) on the dropped schema -/
 theorem C03_old_drop_schema_incoherent :
-    (oldDropReset ⟨some 11, some 21, true, true, (11, 21)⟩ 21).coherent (w1.cat.applyS .drop 12 21).2 = false ∧
-    (oldDropReset ⟨some 11, some 21, true, true, (11, 21)⟩ 21).coherent (w1.cat.applyS .drop 11 21).2 = false ∧
-    (exec w1.cat ⟨some 11, some 21, true, true, (11, 21)⟩ (.sch .drop (.q2 12 21))).2.2.abs = ⟨some 11, some 21⟩ ∧
-    (Impl.step w1 0 (.sch .drop (.q1 21))).2.coherent = true ∧
-    (Impl.run w1 [.stmt 0 (.sch .drop (.q1 21)), .stmt 0 (.tab (.create .table 0) (.q1 32))]).1 = [.ok, .err .noSchema] := by
+    (oldDropReset ⟨some 11, some 21, true, true, (11, 21)⟩ 21).coherent (w1.cat.applyS (.drop false) 12 21).2 = false ∧
+    (oldDropReset ⟨some 11, some 21, true, true, (11, 21)⟩ 21).coherent (w1.cat.applyS (.drop false) 11 21).2 = false ∧
+    (exec w1.cat ⟨some 11, some 21, true, true, (11, 21)⟩ (.sch (.drop false) (.q2 12 21))).2.2.abs = ⟨some 11, some 21⟩ ∧
+    (Impl.step w1 0 (.sch (.drop false) (.q1 21))).2.coherent = true ∧
+    (Impl.run w1 [.stmt 0 (.sch (.drop false) (.q1 21)), .stmt 0 (.tab (.create .table 0 false) (.q1 32))]).1 = [.ok, .err .noSchema] := by
   decide
 
 /-! ## Non-vacuity: the envelope contains real histories -/
@@ -240,11 +289,11 @@ theorem C03_old_drop_schema_incoherent :
 /-- two connections, both kinds of USE SCHEMA, creation/insert/select at all three levels, a connection dropping
     its own current schema, 90106 afterwards — all inside the envelope -/
 def demo : List Op :=
-  [.connect (some 11) (some 21), .connect (some 12) none, .connect none none,
-   .stmt 0 (.tab (.create .table 0) (.q1 31)), .stmt 0 (.tab (.insert 5) (.q1 31)),
-   .stmt 1 (.sch .create (.q1 22)), .stmt 1 (.sch .use (.q2 11 21)), .stmt 1 (.tab (.insert 6) (.q1 31)),
+  [.connect (some 11) (some 21) true true, .connect (some 12) none true true, .connect none none true true,
+   .stmt 0 (.tab (.create .table 0 false) (.q1 31)), .stmt 0 (.tab (.insert 5) (.q1 31)),
+   .stmt 1 (.sch (.create true) (.q1 22)), .stmt 1 (.sch .use (.q2 11 21)), .stmt 1 (.tab (.insert 6) (.q1 31)),
    .stmt 2 (.tab .select (.q3 11 21 31)), .stmt 2 (.tab .select (.q2 21 31)), .stmt 1 (.sch .use (.q2 12 22)),
-   .stmt 1 (.tab (.create .view 9) (.q2 22 33)), .stmt 1 (.sch .drop (.q1 22)), .stmt 1 (.tab .select (.q1 33)),
+   .stmt 1 (.tab (.create .view 9 false) (.q2 22 33)), .stmt 1 (.sch (.drop true) (.q1 22)), .stmt 1 (.tab .select (.q1 33)),
    .stmt 0 (.join (.q1 31) (.q2 21 31)), .stmt 0 .selectCtx]
 
 example : clean World.init demo = true := by decide
